@@ -10,6 +10,7 @@ pub mod c06;
 #[cfg(feature = "net")]
 pub mod c07;
 pub mod c09;
+pub mod c10;
 #[cfg(feature = "net")]
 pub mod c12;
 pub mod c13;
@@ -30,6 +31,7 @@ pub fn dispatch(a: &Args) -> Option<Report> {
         #[cfg(feature = "net")]
         "C07" | "C08" => c07::run(a),
         "C09" => c09::run(a),
+        "C10" => c10::run(a),
         #[cfg(feature = "net")]
         "C12" => c12::run(a),
         "C13" => c13::run(a),
